@@ -1594,6 +1594,8 @@ struct SeqRun
         // ---- prediction for the bare twin, on the state before the op
         const bool skip_on_B = B && stp.splice && predict_noeffect(op);
         auto       exempt    = b_exempt(op);
+        // (b_exempt is asked again for every single of a range below and resets the flag: keep the step's answer)
+        const bool b_ambiguous_step = b_ambiguous;
 
         // ---- the op on S (singles), R (as written)
         twins_in_sync = false;
@@ -1749,7 +1751,7 @@ struct SeqRun
                 {
                     if (exempt.first)
                     {
-                        if (b_ambiguous)
+                        if (b_ambiguous_step)
                         {
                             b_compare = false;
                             st.bump("open.c19_comparison_stopped");
